@@ -1291,7 +1291,7 @@ theorem inv_stepSwapobj {s : State} (h : Inv s) (hok : (stepSwapobj s).1.ok = tr
 theorem rsAlloc_cfg (s : State) (n : Nat) : (rsAlloc s n).cfg = s.cfg := by
   unfold rsAlloc; split <;> rfl
 
-theorem step_cfg (s : State) (op : Op) : (step s op).1.cfg = s.cfg := by
+theorem step_cfg0 (s : State) (op : Op) (hop : ∀ k sz, op ≠ Op.allocThrow k sz) : (step s op).1.cfg = s.cfg := by
   cases op with
   | alloc k sz =>
     simp only [step, stepAlloc]
@@ -1325,6 +1325,107 @@ theorem step_cfg (s : State) (op : Op) : (step s op).1.cfg = s.cfg := by
   | destroy => rfl
   | moveOut => simp only [step, stepMoveOut]; split <;> rfl
   | swapobj => simp only [step, stepSwapobj]; split <;> rfl
+  | allocThrow k sz => exact absurd rfl (hop k sz)
+
+theorem step_cfg (s : State) (op : Op) : (step s op).1.cfg = s.cfg := by
+  cases op with
+  | allocThrow k sz =>
+    have h1 : (stepAlloc s k sz).1.cfg = s.cfg := step_cfg0 s (Op.alloc k sz) (fun _ _ e => by cases e)
+    simp only [step, stepAllocThrow]
+    split
+    · rename_i id blk hres
+      show (stepFree (stepAlloc s k sz).1 id).1.cfg = s.cfg
+      have h2 : (stepFree (stepAlloc s k sz).1 id).1.cfg = (stepAlloc s k sz).1.cfg :=
+        step_cfg0 _ (Op.free id) (fun _ _ e => by cases e)
+      rw [h2, h1]
+    · exact h1
+  | alloc k sz => exact step_cfg0 s _ (fun _ _ e => by cases e)
+  | free id => exact step_cfg0 s _ (fun _ _ e => by cases e)
+  | newobj => exact step_cfg0 s _ (fun _ _ e => by cases e)
+  | bufset n => exact step_cfg0 s _ (fun _ _ e => by cases e)
+  | destroy => exact step_cfg0 s _ (fun _ _ e => by cases e)
+  | moveOut => exact step_cfg0 s _ (fun _ _ e => by cases e)
+  | swapobj => exact step_cfg0 s _ (fun _ _ e => by cases e)
+
+theorem stepAlloc_ok_mono (s : State) (k sz : Nat) (hok : (stepAlloc s k sz).1.ok = true) : s.ok = true := by
+  simp only [stepAlloc] at hok
+  cases hpol : s.cfg.pol with
+  | default => simp only [hpol] at hok; exact hok
+  | reusable =>
+    simp only [hpol] at hok
+    have : (s.ok && s.frames.isEmpty) = true := hok
+    simp only [Bool.and_eq_true] at this; exact this.1
+  | mtsafe =>
+    simp only [hpol, allocMtsafe] at hok
+    split at hok
+    · exact hok
+    · simp only [rsAlloc] at hok; split at hok <;> exact hok
+  | stack i =>
+    simp only [hpol] at hok
+    cases hk : s.objs[k]? with
+    | none => simp only [hk] at hok; cases hok
+    | some asz =>
+      simp only [hk, allocStack] at hok
+      split at hok
+      · have : (s.ok && s.frames.all (fun f => f.blk != Blk.ext k)) = true := hok
+        simp only [Bool.and_eq_true] at this; exact this.1
+      · exact hok
+  | placement b =>
+    simp only [hpol] at hok
+    have : (s.ok && s.frames.isEmpty && decide (need s.cfg sz ≤ b)) = true := hok
+    simp only [Bool.and_eq_true] at this; exact this.1.1
+  | buffer i =>
+    simp only [hpol] at hok
+    have : (s.ok && s.frames.isEmpty) = true := hok
+    simp only [Bool.and_eq_true] at this; exact this.1
+  | static sp a =>
+    simp only [hpol] at hok
+    split at hok
+    · exact hok
+    · simp only [allocStatic] at hok
+      split at hok
+      · have : (s.ok && s.frames.all (fun f => f.blk != Blk.ext 0)) = true := hok
+        simp only [Bool.and_eq_true] at this; exact this.1
+      · exact hok
+
+theorem stepFree_ok_mono (s : State) (id : Nat) (hok : (stepFree s id).1.ok = true) : s.ok = true := by
+  simp only [stepFree] at hok
+  cases hfind : s.frames.find? (fun f => f.id == id) with
+  | none => simp only [hfind] at hok; cases hok
+  | some f =>
+    simp only [hfind, release] at hok
+    split at hok
+    · split at hok <;> exact hok
+    · split at hok <;> exact hok
+
+/-- the contract flag only ever goes down -/
+theorem step_ok_mono (s : State) (op : Op) (hok : (step s op).1.ok = true) : s.ok = true := by
+  cases op with
+  | alloc k sz => exact stepAlloc_ok_mono s k sz hok
+  | free id => exact stepFree_ok_mono s id hok
+  | newobj => simp only [step, stepNewobj] at hok; split at hok <;> exact hok
+  | bufset n =>
+    simp only [step, stepBufset] at hok
+    split at hok
+    · have : (s.ok && s.frames.isEmpty) = true := hok
+      simp only [Bool.and_eq_true] at this; exact this.1
+    · exact hok
+  | destroy =>
+    have : (s.ok && s.frames.isEmpty) = true := hok
+    simp only [Bool.and_eq_true] at this; exact this.1
+  | moveOut => simp only [step, stepMoveOut] at hok; split at hok <;> exact hok
+  | swapobj =>
+    simp only [step, stepSwapobj] at hok
+    split at hok
+    · have : (s.ok && s.frames.isEmpty) = true := hok
+      simp only [Bool.and_eq_true] at this; exact this.1
+    · exact hok
+  | allocThrow k sz =>
+    simp only [step, stepAllocThrow] at hok
+    split at hok
+    · rename_i id blk hres
+      exact stepAlloc_ok_mono s k sz (stepFree_ok_mono _ id hok)
+    · exact stepAlloc_ok_mono s k sz hok
 
 macro "fin_tac" : tactic => `(tactic| (refine ⟨?_, ?_, ?_, ?_, ?_⟩ <;> first | rfl | trivial | exact ⟨_, rfl⟩))
 
@@ -1423,8 +1524,7 @@ theorem inv_stepAllocThrow {s : State} (hc : CfgOK s.cfg) (h : Inv s) (k sz : Na
         simp only [beq_iff_eq]; omega
       simp [this]
     have hok1 : (stepAlloc s k sz).1.ok = true := by
-      have := step_ok_mono (stepAlloc s k sz).1 (Op.free id) hok2
-      exact this
+      exact stepFree_ok_mono _ id hok2
     have hi1 : Inv (stepAlloc s k sz).1 := inv_stepAlloc hc h k sz hok1
     have hi2 : Inv (stepFree (stepAlloc s k sz).1 id).1 := inv_stepFree hi1 id hok2
     have hnot : (⟨id, blk, sz, p⟩ : Frame) ∉ s.frames := by
@@ -1454,76 +1554,7 @@ theorem inv_step {s : State} (hc : CfgOK s.cfg) (h : Inv s) (op : Op) (hok : (st
   | destroy => exact inv_stepDestroy h hok
   | moveOut => exact inv_stepMoveOut h
   | swapobj => exact inv_stepSwapobj h hok
-
-/-- the contract flag only ever goes down -/
-theorem step_ok_mono (s : State) (op : Op) (hok : (step s op).1.ok = true) : s.ok = true := by
-  cases op with
-  | alloc k sz =>
-    simp only [step, stepAlloc] at hok
-    cases hpol : s.cfg.pol with
-    | default => simp only [hpol] at hok; exact hok
-    | reusable =>
-      simp only [hpol] at hok
-      have : (s.ok && s.frames.isEmpty) = true := hok
-      simp only [Bool.and_eq_true] at this; exact this.1
-    | mtsafe =>
-      simp only [hpol, allocMtsafe] at hok
-      split at hok
-      · exact hok
-      · simp only [rsAlloc] at hok; split at hok <;> exact hok
-    | stack i =>
-      simp only [hpol] at hok
-      cases hk : s.objs[k]? with
-      | none => simp only [hk] at hok; cases hok
-      | some asz =>
-        simp only [hk, allocStack] at hok
-        split at hok
-        · have : (s.ok && s.frames.all (fun f => f.blk != Blk.ext k)) = true := hok
-          simp only [Bool.and_eq_true] at this; exact this.1
-        · exact hok
-    | placement b =>
-      simp only [hpol] at hok
-      have : (s.ok && s.frames.isEmpty && decide (need s.cfg sz ≤ b)) = true := hok
-      simp only [Bool.and_eq_true] at this; exact this.1.1
-    | buffer i =>
-      simp only [hpol] at hok
-      have : (s.ok && s.frames.isEmpty) = true := hok
-      simp only [Bool.and_eq_true] at this; exact this.1
-    | static sp a =>
-      simp only [hpol] at hok
-      split at hok
-      · exact hok
-      · simp only [allocStatic] at hok
-        split at hok
-        · have : (s.ok && s.frames.all (fun f => f.blk != Blk.ext 0)) = true := hok
-          simp only [Bool.and_eq_true] at this; exact this.1
-        · exact hok
-  | free id =>
-    simp only [step, stepFree] at hok
-    cases hfind : s.frames.find? (fun f => f.id == id) with
-    | none => simp only [hfind] at hok; cases hok
-    | some f =>
-      simp only [hfind, release] at hok
-      split at hok
-      · split at hok <;> exact hok
-      · split at hok <;> exact hok
-  | newobj => simp only [step, stepNewobj] at hok; split at hok <;> exact hok
-  | bufset n =>
-    simp only [step, stepBufset] at hok
-    split at hok
-    · have : (s.ok && s.frames.isEmpty) = true := hok
-      simp only [Bool.and_eq_true] at this; exact this.1
-    · exact hok
-  | destroy =>
-    have : (s.ok && s.frames.isEmpty) = true := hok
-    simp only [Bool.and_eq_true] at this; exact this.1
-  | moveOut => simp only [step, stepMoveOut] at hok; split at hok <;> exact hok
-  | swapobj =>
-    simp only [step, stepSwapobj] at hok
-    split at hok
-    · have : (s.ok && s.frames.isEmpty) = true := hok
-      simp only [Bool.and_eq_true] at this; exact this.1
-    · exact hok
+  | allocThrow k sz => exact inv_stepAllocThrow hc h k sz hok
 
 theorem run_ok_mono (s : State) (ops : List Op) (hok : (run s ops).ok = true) : s.ok = true := by
   induction ops generalizing s with
@@ -1597,7 +1628,7 @@ theorem alloc_capBytes_ge (s : State) (hc : CfgOK s.cfg) (hv : s.vsize ≤ s.cap
 theorem capBytes_addFrame (s : State) (b : Blk) (sz : Nat) (p : Bool) : capBytes (addFrame s b sz p) = capBytes s := rfl
 
 theorem capBytes_mono_step (s : State) (hc : CfgOK s.cfg) (hv : s.vsize ≤ s.cap) (op : Op)
-    (hd : op ≠ Op.destroy ∧ op ≠ Op.swapobj) :
+    (hd : op ≠ Op.destroy ∧ op ≠ Op.swapobj ∧ ∀ k sz, op ≠ Op.allocThrow k sz) :
     capBytes s ≤ capBytes (step s op).1 := by
   cases op with
   | alloc k sz =>
@@ -1649,7 +1680,8 @@ theorem capBytes_mono_step (s : State) (hc : CfgOK s.cfg) (hv : s.vsize ≤ s.ca
     · exact Nat.le_refl _
   | destroy => exact absurd rfl hd.1
   | moveOut => simp only [step, stepMoveOut]; split <;> exact Nat.le_refl _
-  | swapobj => exact absurd rfl hd.2
+  | swapobj => exact absurd rfl hd.2.1
+  | allocThrow k sz => exact absurd rfl (hd.2.2 k sz)
 
 /-- a request that fits into the storage's own (free) block causes no heap call -/
 theorem alloc_no_heap (s : State) (hc : CfgOK s.cfg) (hr : Reusing s.cfg.pol)
